@@ -159,7 +159,20 @@ CHECKS['C20'] = dict(
     note='Files live in a scratch directory removed after each case; the env variable is restored after each case.',
     technique='Hypothesis property-based testing (byte round trip through recorder and cassette)')
 
+CHECKS['C06'] = dict(
+    engine='hashseed', category='exploration', design='DESIGN.md 3 C06',
+    text='Hypothesis-generated batches of input calls are recorded by a child interpreter started with one '
+         'PYTHONHASHSEED into a file cassette and replayed, as structurally equal reconstructions (reversed dict/set '
+         'construction order, keyword order swapped, uncaptured arguments replaced), by a child started with another '
+         'seed: metamorphic "equal => same token" and "distinct => own token", plus equality of the key strings listed '
+         'in both processes.',
+    note='Children are persistent interpreters speaking pickled descriptions over pipes (pbt/hashseed.py). Known '
+         'finding (sets with >= 2 members in captured arguments) excluded by construction and witnessed on every run. '
+         'Pairs that are == but differently typed (1/1.0/True) are not constrained.',
+    technique='Hypothesis metamorphic testing across processes with different hash seeds')
+
 ENGINES = [
+    ('hashseed', 'pbt/hashseed.py', 'persistent child interpreters with fixed distinct PYTHONHASHSEED values', ['C06']),
     ('progsim', 'pbt/progsim.py', 'program simulator: JSON program descriptions -> real decorated classes, undecorated '
                                   'twin, journals, fault injection, program strategies', ['C01', 'C02', 'C03', 'C04',
                                                                                           'C05', 'C09', 'C11', 'C17',
